@@ -21,7 +21,7 @@ def _ids(rows):
 
 @obligation(funcs=["storage.kv.planner", "storage.kv.execute_one_plan", "storage.kv.Index.scanner", "storage.kv.matcher",
                    "storage.kv.MultiIndex.scanner"],
-            params=range(5), timeout=(400, 1800),
+            params=range(5), timeout=(500, 1800),
             bounds="base store {e0}; neighbour X with author by bool, kind from {1,2}, created_at symbolic 1..200 (incl. equal to "
                    "e0's, with the smaller or the larger id), one tag from {none, t:a, t:ab, t:b} (extending / prefixing the "
                    "requested value); filter shape by PARAM (kinds, authors, #t, kinds+#t, authors+kinds), optional until; X is "
@@ -56,7 +56,7 @@ def ob_neighbour_frame(k0: int, t0: int, g0: int, px: bool, kx: int, tx: int, gx
 
 
 @obligation(funcs=["storage.kv.planner", "storage.kv.execute_one_plan", "storage.kv.Index.scanner", "storage.kv.matcher"],
-            params=range(6), timeout=(400, 1800),
+            params=range(6), timeout=(500, 1800),
             bounds="store {e0, e1} (kinds {1,2}, created_at symbolic, one tag from 4); PARAM 0/3/4: kinds filter vs the same filter "
                    "plus a #t condition / plus until / plus since; PARAM 1: #t filter vs plus kinds; PARAM 2 (kinds) / 5 (tag values): union: kinds [2,1] vs "
                    "[2] and [1], #t [a,b] vs [a] and [b], with an optional symbolic until")
